@@ -452,7 +452,7 @@ def write_evidence(pid, tier, seed, spec, results, counts, nviol, wall, known_hi
         'evaluations': sum(r.get('traces', 0) for r in results),
         'distinct_nontrivial': sum(c.get('distinct_final_snapshots', 0) for r in results for c in r.get('configs', [])),
         'rule': 'distinct_nontrivial = number of distinct (world, problem, final planner snapshot) triples the real planner '
-                'reached, counted by the harness; evaluations = histories executed. 'TLC explores each configuration exhaustively (all worlds / problems / sample sequences / call histories within '
+                'reached, counted by the harness; evaluations = histories executed. TLC explores each configuration exhaustively (all worlds / problems / sample sequences / call histories within '
                 'the stated bounds); every history it emits is executed on the real planner over a lattice space and the '
                 'recorded trace is validated event by event by spec/TraceMonitor.tla',
         'engines': [{'engine': r['engine'], 'configs': r.get('configs', []), 'witnesses': r.get('witnesses', []),
